@@ -151,4 +151,41 @@ theorem esccpy_eq (tz : Nat) (src : List Byte) (h : (unesc src).length < tz) :
   rw [go_eq tz (src.length + 1) src [] (by omega) (by simpa using h)]
   simp
 
+/-- without enough room the copy loop gives up -/
+theorem go_none (tz : Nat) : ∀ (fuel : Nat) (s acc : List Byte),
+    s.length < fuel → acc.length < tz → tz ≤ (acc ++ unesc s).length → esccpy.go tz fuel s acc = none
+  | 0, s, acc, hf, _, _ => by omega
+  | fuel+1, [], acc, _, ha, hl => by simp [unesc] at hl; omega
+  | fuel+1, c :: rest, acc, hf, ha, hl => by
+    have hd : (rest.drop 1).length < fuel := by simp at hf ⊢; omega
+    have hr : rest.length < fuel := by simp at hf; omega
+    have e1 : NL ≠ CR := by decide
+    have e2 : BSL ≠ CR := by decide
+    have e3 : BSL ≠ NL := by decide
+    rw [go_cons]
+    rw [unesc_cons] at hl
+    by_cases h1 : c = CR
+    · simp only [h1, if_true] at hl ⊢
+      rw [if_neg (by omega)]; exact go_none tz fuel rest acc hr ha hl
+    · by_cases h2 : c = NL
+      · simp only [h2, e1, if_true, if_false] at hl ⊢
+        rw [if_neg (by omega)]; exact go_none tz fuel _ acc hd ha hl
+      · by_cases h3 : c = BSL
+        · simp only [h3, e2, e3, if_true, if_false] at hl ⊢
+          by_cases hge : (acc ++ [BSL]).length ≥ tz
+          · rw [if_pos hge]
+          · rw [if_neg hge]
+            exact go_none tz fuel (rest.drop 1) (acc ++ [BSL]) hd (by omega) (by simpa using hl)
+        · simp only [h1, h2, h3, if_false] at hl ⊢
+          by_cases hge : (acc ++ [c]).length ≥ tz
+          · rw [if_pos hge]
+          · rw [if_neg hge]
+            exact go_none tz fuel rest (acc ++ [c]) hr (by omega) (by simpa using hl)
+
+/-- `esccpy` gives up exactly when what it would copy does not fit below `tz` -/
+theorem esccpy_none (tz : Nat) (src : List Byte) (htz : 0 < tz) (h : tz ≤ (unesc src).length) :
+    esccpy tz src = (none, 0) := by
+  unfold esccpy
+  rw [go_none tz (src.length + 1) src [] (by omega) (by simpa using htz) (by simpa using h)]
+
 end Echse.Ical
